@@ -1,4 +1,5 @@
 import U3.Lemmas.RespDrain
+import U3.Lemmas.RespBroken
 import U3.Lemmas.RespMulti
 import U3.Lemmas.RespWitness
 /-! Concrete well-framed responses for the non-vacuity examples of the `drain_conn` theorems: the
@@ -73,5 +74,33 @@ theorem inv_chunkedGzipHello : Inv cfgGzipChunked cRem CI CDGall respChunkedGzip
   · show CDGall (.one (.gzip (Gz.new gzipO))) (cRem h) (lit "hello")
     rw [hrem]
     exact GzG_of_gzOk gzipO _ _ _ rfl (by decide +kernel)
+
+/-- `Content-Length: 5`, only "ab" arrives: short of its Content-Length -/
+theorem lShort_shortCL : LShort (respOf wireShortCL 0 (some (lit "5")) false (some 5)).fp (some 5) := by
+  generalize hh : (respOf wireShortCL 0 (some (lit "5")) false (some 5)).fp = h
+  have hfacts : h.head = false ∧ h.chunked = false ∧ h.closed = false ∧ h.length = some 5 ∧
+      h.fp.map (·.content) = some (lit "ab") := by
+    subst hh; decide +kernel
+  obtain ⟨h1, h2, h3, h4, h5⟩ := hfacts
+  obtain ⟨f, hf, hc⟩ : ∃ f, h.fp = some f ∧ f.content = lit "ab" := by
+    cases hf : h.fp with
+    | none => rw [hf] at h5; cases h5
+    | some f => rw [hf] at h5; exact ⟨f, rfl, by simpa using h5⟩
+  exact ⟨h1, h2, h3, f, 5, hf, h4, by rw [hc]; decide, rfl⟩
+
+/-- the chunked response cut inside its first chunk is broken, for the segmentation 3 -/
+theorem cBroken_chunkedCut : CBroken (respChunked wireChunkedCut 3).fp none := by
+  generalize hh : (respChunked wireChunkedCut 3).fp = h
+  have hfacts : h.head = false ∧ h.chunked = true ∧ h.closed = false ∧ h.chunkLeft = none ∧
+      h.fp.map (·.content) = some (lit "5\r\nab") := by
+    subst hh; decide +kernel
+  obtain ⟨h1, h2, h3, h4, h5⟩ := hfacts
+  obtain ⟨f, hf, hc⟩ : ∃ f, h.fp = some f ∧ f.content = lit "5\r\nab" := by
+    cases hf : h.fp with
+    | none => rw [hf] at h5; cases h5
+    | some f => rw [hf] at h5; exact ⟨f, rfl, by simpa using h5⟩
+  refine ⟨h1, h2, h3, ⟨f, hf, ?_⟩, rfl⟩
+  rw [h4, hc]
+  exact .line _ 4 (by decide) (.short 4 _ (by decide))
 
 end U3.Resp.Witness
